@@ -82,7 +82,8 @@ example : ¬ (runOn ⟨[(.rv, [1])], []⟩ [.xfer 0 0 .move .res, .xfer 0 0 .mov
   intro h
   exact absurd (h 1 (by decide)) (by decide)
 
-/-- moving out of an lvalue argument changes it -/
+/-- moving out of an lvalue argument changes it — what `optional::to_container` did with an lvalue optional before
+fix 9030486 (it handed `container::make`, which moves out of every argument, the element of the source itself) -/
 example : ¬ (runOn ⟨[(.lv, [1])], []⟩ [.xfer 0 0 .move .res]).LvalueUnchanged := by
   intro h
   exact absurd (h 0 .lv (by decide) (Or.inl rfl)) (by decide)
